@@ -209,7 +209,7 @@ func (p *simPD) start(ctx context.Context) *simFuture {
 }
 
 func (p *simPD) GetTS(ctx context.Context) (int64, int64, error) { return p.start(ctx).Wait() }
-func (p *simPD) GetTSAsync(ctx context.Context) tso.TSFuture      { return p.start(ctx) }
+func (p *simPD) GetTSAsync(ctx context.Context) tso.TSFuture     { return p.start(ctx) }
 func (p *simPD) GetLocalTS(ctx context.Context, _ string) (int64, int64, error) {
 	return p.GetTS(ctx)
 }
